@@ -314,6 +314,10 @@ class BinningConfig(BaseConfig, Immutable):
             This cosmology object is not stored with this instance, but should
             be managed by the top level :obj:`~yaw.Configuration` class.
         """
+        if edges is NotSet and self.is_custom:
+            if all(param is NotSet for param in (zmin, zmax, num_bins, method)):
+                edges = self.edges.tolist()  # keep the custom bin edges
+
         if edges is NotSet:
             if method == "custom":
                 raise ConfigError("'method' is 'custom' but no bin edges provided")
